@@ -214,36 +214,38 @@ structure Sub where
   label : Bytes         -- what the harness prints as `filter=`
   deriving Repr
 
+/-- the current subscriptions after event `e`: a Subscribe / Unsubscribe that succeeded changes them -/
+def updSubs (cfg : Cl.Cfg) (tr : List CE) (subs : List Sub) (e : CE) : List Sub :=
+  match e with
+  | .out _ (.ret call .ok) =>
+    let api? : Option Cl.Api := tr.findSome? fun e2 => match e2 with
+      | .api _ c a => if c == call then some a else none
+      | _ => none
+    (match api? with
+     | some (.subscribe name _) => { filter := name, label := name } :: subs.filter (·.filter != name)
+     | some (.subscribePre id _) =>
+       (match cfg.predef.getTopicName cfg.cid id with
+        | some n => { filter := n, label := Cl.preLabel id } :: subs.filter (·.filter != n)
+        | none => subs)
+     | some (.unsubscribe name) => subs.filter (·.filter != name)
+     | some (.unsubscribePre id) =>
+       (match cfg.predef.getTopicName cfg.cid id with
+        | some n => subs.filter (·.filter != n)
+        | none => subs)
+     | _ => subs)
+  | _ => subs
+
 def c27 (cfg : Cl.Cfg) (tr : List CE) : List Viol :=
-  let rs := rets tr
   let (_, vs) := tr.foldl (fun (acc : List Sub × List Viol) e =>
     let (subs, vs) := acc
     match e with
-    | .out _ (.ret call .ok) =>
-      -- a Subscribe / Unsubscribe that succeeded changes the set of current subscriptions
-      let api? : Option Cl.Api := tr.findSome? fun e2 => match e2 with
-        | .api _ c a => if c == call then some a else none
-        | _ => none
-      (match api? with
-       | some (.subscribe name _) => ({ filter := name, label := name } :: subs.filter (·.filter != name), vs)
-       | some (.subscribePre id _) =>
-         (match cfg.predef.getTopicName cfg.cid id with
-          | some n => ({ filter := n, label := Cl.preLabel id } :: subs.filter (·.filter != n), vs)
-          | none => (subs, vs))
-       | some (.unsubscribe name) => (subs.filter (·.filter != name), vs)
-       | some (.unsubscribePre id) =>
-         (match cfg.predef.getTopicName cfg.cid id with
-          | some n => (subs.filter (·.filter != n), vs)
-          | none => (subs, vs))
-       | _ => (subs, vs))
     | .handlerRan t label topic _ _ =>
       (match subs.find? (·.label == label) with
        | some s =>
          if specMatch (splitTopic s.filter) (splitTopic topic) then (subs, vs)
          else (subs, vs ++ [mk "callback-of-non-matching-filter" s!"t={t}"])
        | none => (subs, vs ++ [mk "callback-of-a-subscription-that-is-not-current" s!"t={t}"]))
-    | _ => (subs, vs)) ([], [])
-  let _ := rs
+    | _ => (updSubs cfg tr subs e, vs)) ([], [])
   vs
 
 /-! ## C33: keep-alive pings only while active -/
@@ -349,27 +351,51 @@ def c06 (tr : List CE) : List Viol :=
   releases the message — one credit with its payload — and closes the exchange; a PUBREL with no
   open exchange (a retransmission) releases nothing.  Every callback run for a QoS-2 message must
   use up one credit with its payload: a run without one is a second delivery of the same message,
-  or a delivery before the release.  (That the released message IS delivered when a subscription
-  matches is the other half; it is decided by the comparison with the model, `DIFF client outputs`.) -/
+  or a delivery before the release.  The other half — a released message that a current subscription matches
+  DOES reach a callback — is judged for short and predefined topic IDs (which the observer reads as the client
+  does without knowing its registry); for registered IDs it is decided by the comparison with the model. -/
 structure C16St where
-  opened : List (UInt16 × Bytes) := []
+  opened : List (UInt16 × UInt8 × UInt16 × Bytes) := []   -- message ID ↦ topic-ID type, topic ID, payload
   credits : List Bytes := []
+  /-- released messages a current subscription matches (by the client's own reading of a short or predefined
+      topic ID): (time of the PUBREL, payload) -/
+  owed : List (Nat × Bytes) := []
+  subs : List Sub := []
   vs : List Viol := []
 
-def c16 (tr : List CE) : List Viol :=
-  (tr.foldl (fun (s : C16St) e =>
+def c16 (cfg : Cl.Cfg) (tr : List CE) : List Viol :=
+  let dn := doneAt tr
+  let st := tr.foldl (fun (s : C16St) e =>
+    let s := { s with subs := updSubs cfg tr s.subs e }
     match e with
-    | .snIn _ b =>
+    | .snIn t b =>
       (match pktOf (b.take Gen.MaxPacketLen) with
-       | some (.publish _ 2 _ _ _ mid data) => { s with opened := (mid, data) :: s.opened.filter (·.1 != mid) }
+       | some (.publish _ 2 _ tit tid mid data) =>
+         { s with opened := (mid, tit, tid, data) :: s.opened.filter (·.1 != mid) }
        | some (.pubrel mid) =>
          (match s.opened.lookup mid with
-          | some data => { s with opened := s.opened.filter (·.1 != mid), credits := s.credits ++ [data] }
+          | some (tit, tid, data) =>
+            -- the other half: a released message that a current subscription matches must reach a callback.
+            -- Judged where the observer can read the topic ID as the client does without knowing its registry
+            -- (short and predefined IDs), while the client runs.
+            let topic? : Option Bytes :=
+              if tit == Gen.TIT_SHORT then some (decodeShortTopic tid)
+              else if tit == Gen.TIT_PREDEFINED then cfg.predef.getTopicName cfg.cid tid
+              else none
+            let running := match dn with | some td => t < td | none => true
+            let due := running && (match topic? with
+              | some topic => s.subs.any fun sb => specMatch (splitTopic sb.filter) (splitTopic topic)
+              | none => false)
+            { s with opened := s.opened.filter (·.1 != mid), credits := s.credits ++ [data],
+                     owed := if due then s.owed ++ [(t, data)] else s.owed }
           | none => s)
        | _ => s)
     | .handlerRan t _ _ 2 payload =>
-      if s.credits.contains payload then { s with credits := s.credits.erase payload }
+      if s.credits.contains payload then
+        { s with credits := s.credits.erase payload,
+                 owed := match s.owed.find? (·.2 == payload) with | some x => s.owed.erase x | none => s.owed }
       else { s with vs := s.vs ++ [mk "qos2-callback-without-a-release" s!"t={t}"] }
-    | _ => s) ({} : C16St)).vs
+    | _ => s) ({} : C16St)
+  st.vs ++ st.owed.map fun (t, _) => mk "qos2-message-released-but-not-delivered" s!"t={t}"
 
 end Bisquitt.Spec.ClientSpec
